@@ -451,6 +451,101 @@ Section GP.
       pose proof (visit_size tree 0 n0 p0) as VS. destruct (visit tree 0 n0 p0) as [[n1 p1] q1]. cbn [snd] in VS.
       apply gloop_total. lia.
     Qed.
+
+    (* ---- which kind of element sits alone in the neighbour queue (the isPivot flag of nearestKInternal, k = 1) ---- *)
+    Fixpoint anodes (n : gnode) : list gnode := n :: flat_map anodes (node_children n).
+    Lemma anodes_self n : In n (anodes n). Proof. destruct n; left; reflexivity. Qed.
+    Lemma anodes_child : forall t n c, In n (anodes t) -> In c (node_children n) -> In c (anodes t).
+    Proof.
+      apply (gnode_rect' (fun t => forall n c, In n (anodes t) -> In c (node_children n) -> In c (anodes t))).
+      intros p a b r dat ch IH n c Hn Hc. cbn [anodes GnatModel.node_children] in *. destruct Hn as [<-|Hn].
+      - right. cbn [GnatModel.node_children] in Hc. apply in_flat_map. exists c. split; [exact Hc|apply anodes_self].
+      - right. apply in_flat_map in Hn. destruct Hn as (c0 & Hc0 & Hn). apply in_flat_map. exists c0. split; [exact Hc0|].
+        rewrite Forall_forall in IH. apply (IH c0 Hc0 n c Hn Hc).
+    Qed.
+    Section Flag.
+      Variable tree : gnode.
+      Definition PV : list P := map node_pivot (anodes tree).
+      Definition DT : list P := flat_map node_data (anodes tree).
+      Definition W1 (n : list nent) : Prop := (length n <= 1)%nat.
+      Hypothesis ins_sem : forall x dd n, W1 n ->
+        W1 (fst (ins x dd n)) /\ (snd (ins x dd n) = true -> fst (ins x dd n) = [(dd, x)]) /\ (snd (ins x dd n) = false -> fst (ins x dd n) = n).
+      (* the flag says where the single queued element comes from; a data element in the queue is never a removed one *)
+      Definition Qf (s : list nent * bool) : Prop :=
+        W1 (fst s) /\ forall dd x, fst s = [(dd, x)] -> if snd s then In x PV else (In x DT /\ removed x = false).
+
+      Lemma scan_Q dat : forall s, (forall x, In x dat -> In x DT) -> Qf s -> Qf (scan dat s).
+      Proof.
+        unfold GnatModel.scan. induction dat as [|x t IH]; intros [n piv] Hd Hq; cbn [fold_left]; [exact Hq|].
+        apply IH; [intros y Hy; apply Hd; right; exact Hy|]. destruct (removed x) eqn:R; [exact Hq|]. cbn [fst snd].
+        destruct Hq as (Wn & Hn). cbn [fst snd] in *. destruct (ins_sem x (d q x) n Wn) as (W' & T & F0).
+        destruct (ins x (d q x) n) as [n' b]. cbn [fst snd] in *. split; [exact W'|]. intros dd y E. destruct b.
+        - rewrite (T eq_refl) in E. injection E as _ <-. split; [apply Hd; left; reflexivity|exact R].
+        - rewrite (F0 eq_refl) in E. apply (Hn dd y E).
+      Qed.
+      Lemma cloop_Q : forall todo done killers n piv, (forall i c, In (i, c) todo -> In (node_pivot c) PV) ->
+        Qf (n, piv) -> Qf (snd (fst (cloop done todo killers n piv)), snd (cloop done todo killers n piv)).
+      Proof.
+        induction todo as [|[i c] t IH]; intros done killers n piv Hp Hq; cbn [GnatModel.cloop]; [exact Hq|].
+        destruct (existsb (fun kl => killed_by kl i) killers); [apply IH; [intros i' c' H; apply (Hp i' c'); right; exact H|exact Hq]|].
+        destruct Hq as (Wn & Hn). cbn [fst snd] in *. destruct (ins_sem (node_pivot c) (d q (node_pivot c)) n Wn) as (W' & T & F0).
+        destruct (ins (node_pivot c) (d q (node_pivot c)) n) as [n' b]. cbn [fst snd] in *.
+        apply IH; [intros i' c' H; apply (Hp i' c'); right; exact H|]. split; [exact W'|]. cbn [fst snd]. intros dd y E. destruct b.
+        - rewrite (T eq_refl) in E. injection E as _ <-. apply (Hp i c). left. reflexivity.
+        - rewrite (F0 eq_refl) in E. apply (Hn dd y E).
+      Qed.
+      Lemma order_in off ch i c : In (i, c) (order_of P off ch) -> In c ch.
+      Proof. intros H. apply order_idx in H. eapply nth_error_In. exact H. Qed.
+      Lemma visit_Q n vis nbh piv : In n (anodes tree) -> Qf (nbh, piv) ->
+        Qf (fst (fst (visit n vis nbh piv)), snd (fst (visit n vis nbh piv))) /\
+        (forall e, In e (snd (visit n vis nbh piv)) -> In (fst e) (anodes tree)).
+      Proof.
+        intros Hn Hq. unfold GnatModel.visit.
+        assert (Hd : forall x, In x (node_data n) -> In x DT) by (intros x Hx; unfold DT; apply in_flat_map; exists n; auto).
+        pose proof (scan_Q (node_data n) (nbh, piv) Hd Hq) as Q1. destruct (scan (node_data n) (nbh, piv)) as [n1 p1].
+        destruct (node_children n) as [|c0 ct] eqn:Ech; [cbn [fst snd]; split; [exact Q1|intros e []]|]. set (ch := c0 :: ct) in *.
+        assert (Hch : forall c, In c ch -> In c (anodes tree)) by (intros c Hc; apply (anodes_child tree n c Hn); rewrite Ech; exact Hc).
+        pose proof (cloop_Q (order_of P (offs vis) ch) [] [] n1 p1) as CQ.
+        pose proof (cloop_nodes (order_of P (offs vis) ch) [] [] n1 p1) as CN.
+        destruct (cloop [] (order_of P (offs vis) ch) [] n1 p1) as [[es n2] p2]. cbn [fst snd rev map app] in *.
+        split.
+        - apply CQ; [|exact Q1]. intros i c H. unfold PV. apply in_map. apply Hch. eapply order_in. exact H.
+        - intros e He. unfold GnatModel.enqueue in He. apply in_flat_map in He. destruct He as (en & Hen & He).
+          destruct (e_dist P en); [|destruct He]. destruct (e_alive P en && negb _); [|destruct He]. destruct He as [<-|[]]. cbn [fst].
+          apply Hch. assert (Hin : In (e_node P en) (map (e_node P) es)) by (apply in_map; exact Hen). rewrite CN in Hin.
+          apply in_map_iff in Hin. destruct Hin as ([i c] & E & Hic). cbn [snd] in E. subst c. eapply order_in. exact Hic.
+      Qed.
+      Lemma gloop_Q : forall fuel vis nbh piv queue nbh' piv',
+        gloop fuel vis nbh piv queue = Some (nbh', piv') -> (forall e, In e queue -> In (fst e) (anodes tree)) -> Qf (nbh, piv) -> Qf (nbh', piv').
+      Proof.
+        induction fuel as [|f IH]; intros vis nbh piv queue nbh' piv' G Hq Q0.
+        - destruct queue; [|discriminate]. cbn [GnatModel.gloop] in G. injection G as <- <-. exact Q0.
+        - destruct queue as [|q0 qt]; [cbn [GnatModel.gloop] in G; injection G as <- <-; exact Q0|].
+          set (queue := q0 :: qt) in *. cbn [GnatModel.gloop] in G. fold queue in G.
+          set (i := Nat.modulo (pick queue) (length queue)) in *.
+          destruct (nth_error queue i) as [[n dn]|] eqn:Ni; [|discriminate].
+          assert (Hrest : forall e, In e (firstn i queue ++ skipn (S i) queue) -> In (fst e) (anodes tree)).
+          { intros e He. apply Hq. apply (Permutation_in _ (Permutation_sym (nth_error_perm queue i (n, dn) Ni))). right. exact He. }
+          destruct (prune_radius nbh dn (node_minR n) (node_maxR n)); [apply (IH _ _ _ _ _ _ G Hrest Q0)|].
+          pose proof (visit_Q n vis nbh piv (Hq (n, dn) (nth_error_In _ _ Ni)) Q0) as (Q1 & Hnq).
+          destruct (visit n vis nbh piv) as [[n2 p2] nq]. cbn [fst snd] in *.
+          apply (IH _ _ _ _ _ _ G); [|exact Q1]. intros e He. apply in_app_or in He. destruct He as [He|He]; [apply Hrest; exact He|apply Hnq; exact He].
+      Qed.
+      Theorem gsearch_Q nbh piv : gsearch tree = Some (nbh, piv) -> Qf (nbh, piv).
+      Proof.
+        intros G. unfold GnatModel.gsearch in G.
+        assert (W0 : W1 []) by (unfold W1; cbn; lia).
+        destruct (ins_sem (node_pivot tree) (d q (node_pivot tree)) [] W0) as (W' & T & F0).
+        destruct (ins (node_pivot tree) (d q (node_pivot tree)) []) as [n0 p0]. cbn [fst snd] in *.
+        assert (Q0 : Qf (n0, p0)).
+        { split; [exact W'|]. cbn [fst snd]. intros dd x E. destruct p0.
+          - rewrite (T eq_refl) in E. injection E as _ <-. unfold PV. apply in_map. apply anodes_self.
+          - rewrite (F0 eq_refl) in E. discriminate. }
+        pose proof (visit_Q tree 0 n0 p0 (anodes_self tree) Q0) as (Q1 & Hnq).
+        destruct (visit tree 0 n0 p0) as [[n1 p1] q1]. cbn [fst snd] in *.
+        apply (gloop_Q _ _ _ _ _ _ _ G Hnq Q1).
+      Qed.
+    End Flag.
   End Generic.
 
   (* ---- the neighbour queue ---- *)
@@ -647,6 +742,26 @@ Section GP.
     Theorem gnat_nearestK_total tree : gnat_nearestK P d peqb removed offs pick k q tree <> None.
     Proof. apply gsearch_total. Qed.
   End KInst.
+
+  (* remove() and nearest(): nearestKInternal(data, 1) returns one element and a flag; the flag is true only if that
+     element is a pivot of the tree and false only if it is a data element that is not marked removed *)
+  Lemma insK1_sem peq q x dd n : (length n <= 1)%nat ->
+    (length (fst (insK P peq 1 q x dd n)) <= 1)%nat /\
+    (snd (insK P peq 1 q x dd n) = true -> fst (insK P peq 1 q x dd n) = [(dd, x)]) /\
+    (snd (insK P peq 1 q x dd n) = false -> fst (insK P peq 1 q x dd n) = n).
+  Proof.
+    intros Hn. unfold insK. destruct n as [|e [|e' t]]; [| |cbn in Hn; lia]; cbn [length Nat.ltb Nat.leb].
+    - cbn [GnatModel.qins fst snd length]. split; [lia|]. split; [reflexivity|discriminate].
+    - destruct ((dd <? top_dist [e]) || ((dd <=? 0) && peq x q)); cbn [removelast GnatModel.qins fst snd length]; split; try lia; split; try reflexivity; discriminate.
+  Qed.
+  Theorem gnat_nearest1_flag removed offs pick q tree nbh piv :
+    gnat_nearestK P d peqb removed offs pick 1 q tree = Some (nbh, piv) ->
+    forall dd x, nbh = [(dd, x)] ->
+      if piv then In x (map node_pivot (anodes tree)) else (In x (flat_map node_data (anodes tree)) /\ removed x = false).
+  Proof.
+    intros G. unfold gnat_nearestK in G.
+    pose proof (gsearch_Q removed offs pick (insK P peqb 1 q) (boundK P 1) q tree (insK1_sem peqb q) nbh piv G) as (_ & H). exact H.
+  Qed.
 
   (* when no pivot is in the removal cache (removing a pivot rebuilds the tree at once), the live elements are the
      tree's elements minus the removal cache *)
